@@ -841,6 +841,7 @@ func run(c *lib.Ctx) {
 		if part == "" {
 			checkList(c)
 		}
+		m.blockOrder()
 	}
 	m.be.ln.Close()
 	if part != "" && part != "metamorphic" {
